@@ -144,6 +144,10 @@ pub struct CaseEnv<'a> {
 }
 
 impl<'a> CaseEnv<'a> {
+    /// A child environment with its own scratch directory below this one.
+    pub fn sub(parent: &CaseEnv<'a>, name: &str) -> CaseEnv<'a> {
+        CaseEnv { ctx: parent.ctx, scratch: parent.scratch.join(name), replay: parent.replay }
+    }
     pub fn dir(&self, name: &str) -> PathBuf {
         let p = self.scratch.join(name);
         std::fs::create_dir_all(&p).expect("create scratch dir");
